@@ -2,7 +2,7 @@
     Only statements, [exact], [Print Assumptions], and examples showing the hypotheses are satisfiable.
 
     Model: model/CheckSig.v — opcodeCheckSig(Verify), opcodeCheckMultiSig(Verify), the three encoding
-    checks, subScript, removeOpcodeByData / removeOpcode / canonicalPush, Unparse, in the shape of the Go
+    checks, subScript, removeOpcodeByData / removeOpcode / PushDataPrefix, Unparse, in the shape of the Go
     code; ECDSA (go-bk) is the oracle record [sig_oracle] and EVERY theorem below holds for all oracles.
     Specifications: spec/MultisigSpec.v ([monotone_matching], [strict_der], [low_s]), spec/DigestSpec.v.
     Proofs: proofs/{CheckSigProofs,DerProofs,MultisigProofs,SigOpProofs}.v.
@@ -24,8 +24,9 @@ Import ListNotations.
     computable, every key passes the enabled key check, the oracle answers) the loop of
     opcodeCheckMultiSig — run with the coded initial counters, a fresh memo and fuel = keys + 1 — ends
     normally, and with [true] exactly when the signatures can be matched to keys in order with every
-    pair verifying.  [pair_ok] is "both parse in go-bk and Verify says yes for the digest of the script
-    code under the signature's hash type".  Lists are in pop order (top of stack first). *)
+    pair verifying.  [pair_ok] is "both parse in go-bk and Verify says yes for the digest, under the
+    signature's hash type, of the script code of THAT signature" ([sig_code_ops]: minus the separators
+    when the signature is hashed with the original digest, see [C06_script_code_per_signature]).  Lists are in pop order (top of stack first). *)
 Theorem C06_multisig_matching : forall orc t in_idx c script pks sigs,
   oracle_total orc ->
   Forall (key_well_encoded c) pks -> Forall (sig_well_encoded t in_idx c script) sigs ->
@@ -84,8 +85,8 @@ Theorem C06_multisig_pops : forall orc t i c s idx vf s',
   checkmultisig_run orc t i c s idx vf = Some (OOk s') ->
   exists nk pks ns sigs dummy rest b,
     ds s = nk :: pks ++ ns :: sigs ++ dummy :: rest /\
-    option_map to_int32 (pop_num c nk) = Some (Z.of_nat (length pks)) /\
-    option_map to_int32 (pop_num c ns) = Some (Z.of_nat (length sigs)) /\
+    option_map to_int32 (pop_count c nk) = Some (Z.of_nat (length pks)) /\
+    option_map to_int32 (pop_count c ns) = Some (Z.of_nat (length sigs)) /\
     (length sigs <= length pks)%nat /\
     ds s' = (if vf then rest else from_bool b :: rest) /\ (vf = true -> b = true) /\
     nops s' = (nops s + Z.of_nat (length pks))%Z /\
@@ -96,8 +97,8 @@ Print Assumptions C06_multisig_pops.
 (** the run on a stack of that shape: null-dummy rule, the loop, null-fail over all signatures, the push *)
 Theorem C06_multisig_eval : forall orc t i c s idx vf nk pks ns sigs dummy rest a b,
   ds s = nk :: pks ++ ns :: sigs ++ dummy :: rest ->
-  pop_num c nk = Some a -> to_int32 a = Z.of_nat (length pks) ->
-  pop_num c ns = Some b -> to_int32 b = Z.of_nat (length sigs) ->
+  pop_count c nk = Some a -> to_int32 a = Z.of_nat (length pks) ->
+  pop_count c ns = Some b -> to_int32 b = Z.of_nat (length sigs) ->
   (length sigs <= length pks)%nat -> (Z.of_nat (length pks) <= max_pubkeys c)%Z ->
   (nops s + Z.of_nat (length pks) <= max_ops c)%Z ->
   checkmultisig_run orc t i c s idx vf =
@@ -114,6 +115,25 @@ Theorem C06_multisig_eval : forall orc t i c s idx vf nk pks ns sigs dummy rest 
   end.
 Proof. exact multisig_eval. Qed.
 Print Assumptions C06_multisig_eval.
+
+(** the two counts are script numbers of at most 4 bytes in BOTH eras (the data stack's number length,
+    750000 bytes after genesis, does not apply to them), minimally encoded under MINIMALDATA *)
+Theorem C06_count_rule : forall c b,
+  pop_count c b = if (4 <? Z.of_nat (length b))%Z then None
+                  else if has_flag c F_MINIMALDATA && negb (is_minimal b) then None else Some (num_dec b).
+Proof. exact pop_count_spec. Qed.
+Print Assumptions C06_count_rule.
+
+Theorem C06_multisig_long_key_count : forall orc t i c s idx vf nk d,
+  ds s = nk :: d -> (4 < length nk)%nat -> checkmultisig_run orc t i c s idx vf = Some OErr.
+Proof. exact multisig_long_key_count. Qed.
+Print Assumptions C06_multisig_long_key_count.
+
+Theorem C06_multisig_long_sig_count : forall orc t i c s idx vf nk pks ns d a,
+  ds s = nk :: pks ++ ns :: d -> pop_count c nk = Some a -> to_int32 a = Z.of_nat (length pks) ->
+  (4 < length ns)%nat -> checkmultisig_run orc t i c s idx vf = Some OErr.
+Proof. exact multisig_long_sig_count. Qed.
+Print Assumptions C06_multisig_long_sig_count.
 
 (** * 3. OP_CHECKSIG *)
 
@@ -139,15 +159,21 @@ Theorem C06_checksig_result : forall orc t i c s idx pk full r sig hb up inp,
 Proof. exact checksig_result. Qed.
 Print Assumptions C06_checksig_result.
 
+(** an empty signature: the public key encoding is checked all the same (an error under STRICTENC for a
+    key that is not 02/03 + 32 bytes or 04 + 64 bytes), then false is pushed.
+    (Statement changed: it used to say "always pushes false", which was the defect.) *)
 Theorem C06_checksig_empty_signature : forall orc t i c s idx pk r,
-  ds s = pk :: [] :: r -> checksig_run orc t i c s idx false = Some (push_bool (set_ds s r) false).
+  ds s = pk :: [] :: r ->
+  checksig_run orc t i c s idx false =
+  if check_pubkey_enc c pk then Some (push_bool (set_ds s r) false) else Some OErr.
 Proof. exact checksig_empty. Qed.
 Print Assumptions C06_checksig_empty_signature.
 
 (** * 4. the script code *)
 
 (** OP_CHECKSIG: the opcodes from [last_sep] on; FORKID flag and FORKID bit: untouched; otherwise minus
-    the separators and minus the smallest-form pushes whose data contains the signature ([kept]) *)
+    the separators and minus the opcodes that ARE the push of the signature ([kept], [is_sig_push]).
+    (Statement changed: [kept] used to remove every smallest-form push CONTAINING the signature.) *)
 Theorem C06_script_code_checksig : forall c s full shf,
   checksig_code_ops c s full shf =
   if has_flag c F_FORKID && flag_has shf sh_forkid then skipn (last_sep s) (cur s)
@@ -155,21 +181,72 @@ Theorem C06_script_code_checksig : forall c s full shf,
 Proof. exact checksig_code_spec. Qed.
 Print Assumptions C06_script_code_checksig.
 
-(** OP_CHECKMULTISIG: the same stripping for every signature that is not (FORKID flag and FORKID bit) *)
+(** OP_CHECKMULTISIG, common part: the pushes of every signature that is not (FORKID flag and FORKID
+    bit) are removed — an empty signature is one of them.  Separators are NOT removed here.
+    (Statement changed: it used to remove the separators as soon as one such signature was present.) *)
 Theorem C06_script_code_multisig : forall c s sigs,
   multisig_code_ops c s sigs =
-  filter (fun p => forallb (fun raw => negb (strips c raw) || kept raw p) sigs) (skipn (last_sep s) (cur s)).
+  filter (fun p => forallb (fun raw => negb (strips c raw) || negb (is_sig_push raw p)) sigs) (skipn (last_sep s) (cur s)).
 Proof. exact multisig_code_spec. Qed.
 Print Assumptions C06_script_code_multisig.
 
-Theorem C06_carries_signature : forall sig p,
-  carries sig p = true <-> canonical_push p = true /\ exists a b, p_data p = a ++ sig ++ b.
-Proof. exact carries_spec. Qed.
-Print Assumptions C06_carries_signature.
+(** OP_CHECKMULTISIG, per signature: what is unparsed and hashed for a signature with hash type [shf]
+    is the common script minus the separators when that signature is hashed with the original digest,
+    and the common script itself (separators included) when it is hashed with the FORKID digest — whatever
+    the hash types of the OTHER signatures are *)
+Theorem C06_script_code_per_signature : forall c script shf,
+  sig_code_ops c script shf =
+  if has_flag c F_FORKID && flag_has shf sh_forkid then script else filter (fun p => negb (is_sep p)) script.
+Proof. exact sig_code_spec. Qed.
+Print Assumptions C06_script_code_per_signature.
 
-Theorem C06_bytes_contains_spec : forall h n, bytes_contains h n = true <-> exists a b, h = a ++ n ++ b.
-Proof. exact bytes_contains_spec. Qed.
-Print Assumptions C06_bytes_contains_spec.
+(** removal is exact: an opcode is removed exactly when its serialisation is, byte for byte, the push a
+    script serialises the signature with (the node's FindAndDelete pattern [CScript() << vchSig]) *)
+Theorem C06_removal_is_exact : forall sig p,
+  is_sig_push sig p = true <-> exists pre, push_prefix sig = Some pre /\ pop_bytes p = Some (pre ++ sig).
+Proof. exact is_sig_push_spec. Qed.
+Print Assumptions C06_removal_is_exact.
+
+(** that push: one length byte below 76 bytes — the single byte 00 (OP_0) for the empty signature, never
+    OP_1..OP_16 / OP_1NEGATE —, OP_PUSHDATA1/2/4 with a little-endian length above *)
+Theorem C06_push_forms : forall sig,
+  let l := N.of_nat (length sig) in
+  push_prefix sig =
+    if (l <? 76)%N then Some [n2b l]
+    else if (l <? 256)%N then Some [x4c; n2b l]
+    else if (l <? 65536)%N then Some (x4d :: le_enc 2 l)
+    else if (l <? 4294967296)%N then Some (x4e :: le_enc 4 l)
+    else None.
+Proof. exact push_prefix_spec. Qed.
+Print Assumptions C06_push_forms.
+
+(** for an opcode of the opcode table ([op_length]): removed only if it pushes EXACTLY the signature with
+    the smallest push instruction — a push that merely contains the signature, or pushes it with a longer
+    instruction, stays — and conversely *)
+Theorem C06_removed_push_is_exact : forall sig p,
+  p_len p = op_length (p_val p) -> (p_val p < 256)%N ->
+  is_sig_push sig p = true -> p_data p = sig /\ p_val p = push_opcode (length sig).
+Proof. exact removed_push_is_exact. Qed.
+Print Assumptions C06_removed_push_is_exact.
+
+Theorem C06_exact_push_is_removed : forall sig p,
+  p_len p = op_length (p_val p) -> p_data p = sig -> p_val p = push_opcode (length sig) ->
+  (N.of_nat (length sig) < 4294967296)%N -> is_sig_push sig p = true.
+Proof. exact exact_push_is_removed. Qed.
+Print Assumptions C06_exact_push_is_removed.
+
+(** the empty signature removes OP_0 opcodes only *)
+Theorem C06_empty_signature_removes_op0_only : forall p,
+  is_sig_push [] p = true <-> pop_bytes p = Some [x00].
+Proof. exact empty_sig_removes_op0_only. Qed.
+Print Assumptions C06_empty_signature_removes_op0_only.
+
+(** an opcode that serialises to a single byte other than 00 (OP_1NEGATE, OP_1..OP_16, every non-push
+    opcode, OP_CODESEPARATOR) is never removed by signature removal, whatever the signature *)
+Theorem C06_single_byte_opcode_kept : forall sig p v,
+  pop_bytes p = Some [v] -> v <> x00 -> is_sig_push sig p = false.
+Proof. exact single_byte_opcode_kept. Qed.
+Print Assumptions C06_single_byte_opcode_kept.
 
 Theorem C06_unparse_is_concatenation : forall ops b, unparse ops = Some b ->
   exists bs, Forall2 (fun p x => pop_bytes p = Some x) ops bs /\ b = concat bs.
@@ -243,6 +320,20 @@ Theorem C06_low_s_spec : forall c b, has_flag c F_LOWS = true ->
 Proof. exact low_s_spec. Qed.
 Print Assumptions C06_low_s_spec.
 
+(** LOW_S is about signatures in range: with R or S not below the group order the signature is not
+    "high S" — it passes the encoding check under every flag set (and never verifies) *)
+Theorem C06_low_s_out_of_range : forall c R Sv,
+  der_integer R -> der_integer Sv -> (length R + length Sv <= 66)%nat ->
+  (secp256k1_order <= be_dec R \/ secp256k1_order <= be_dec Sv)%N ->
+  check_sig_enc c (x30 :: n2b (N.of_nat (4 + length R + length Sv)) :: x02 :: n2b (N.of_nat (length R)) :: R ++
+                   x02 :: n2b (N.of_nat (length Sv)) :: Sv) = EncOk.
+Proof. exact out_of_range_passes. Qed.
+Print Assumptions C06_low_s_out_of_range.
+
+Theorem C06_low_s_in_range : forall R Sv, in_range R Sv -> (low_s R Sv <-> (be_dec Sv <= secp256k1_order / 2)%N).
+Proof. exact in_range_low_s. Qed.
+Print Assumptions C06_low_s_in_range.
+
 Theorem C06_no_encoding_flags : forall c b, enc_flags_on c = false -> check_sig_enc c b = EncOk.
 Proof. exact check_sig_enc_off. Qed.
 Print Assumptions C06_no_encoding_flags.
@@ -296,12 +387,41 @@ Proof.
   exists [x01], [x01].
   assert (Hi : der_integer [x01]) by (cbn; split; [reflexivity|exact I]).
   split; [reflexivity|]. split; [exact Hi|]. split; [exact Hi|]. split; [cbn; repeat constructor|].
-  unfold low_s. intros H. vm_compute in H. discriminate.
+  unfold low_s. intros _ H. vm_compute in H. discriminate.
 Qed.
 Example C06_der_example_model :
   check_sig_enc (flags_of false true true false false false) [x30; x06; x02; x01; x01; x02; x01; x01] = EncOk /\
   check_sig_enc (flags_of false true false false false false) [x30; x06; x02; x01; x00; x02; x01; x01; x00] = EncErr.
 Proof. vm_compute. split; reflexivity. Qed.
+
+(** S = the group order (33 bytes 00 FF..41) is out of range, not high S: accepted under LOW_S; S = order - 1
+    is the highest high S: rejected; without LOW_S (DERSIG only) both pass the encoding check *)
+Example C06_low_s_range_examples :
+  let body s := x30 :: x26 :: x02 :: x01 :: x01 :: x02 :: x21 :: x00 :: be_enc 32 s in
+  check_sig_enc (flags_of false false true false false false) (body secp256k1_order) = EncOk /\
+  check_sig_enc (flags_of false false true false false false) (body (secp256k1_order - 1)%N) = EncErr /\
+  check_sig_enc (flags_of false true false false false false) (body (secp256k1_order - 1)%N) = EncOk.
+Proof. vm_compute. repeat split; reflexivity. Qed.
+
+(** signature removal on  <30 01>  <30 01 ee>  PUSHDATA1<30 01>  OP_0  OP_5  <05> :
+    for the "signature" 30 01 only the first opcode goes (the push containing it and the PUSHDATA1 form stay);
+    the empty signature removes OP_0 only; the one-byte signature 05 removes 01 05 and not OP_5 *)
+Example C06_removal_examples :
+  let script := [x02; x30; x01] ++ [x03; x30; x01; xee] ++ [x4c; x02; x30; x01] ++ [x00; x55] ++ [x01; x05] in
+  let strip sig := match parse_script false script with
+                   | Some ops => unparse (remove_by_data ops sig) | None => None end in
+  strip [x30; x01] = Some ([x03; x30; x01; xee] ++ [x4c; x02; x30; x01] ++ [x00; x55] ++ [x01; x05]) /\
+  strip [] = Some ([x02; x30; x01] ++ [x03; x30; x01; xee] ++ [x4c; x02; x30; x01] ++ [x55] ++ [x01; x05]) /\
+  strip [x05] = Some ([x02; x30; x01] ++ [x03; x30; x01; xee] ++ [x4c; x02; x30; x01] ++ [x00; x55]).
+Proof. vm_compute. repeat split; reflexivity. Qed.
+
+(** a 5-byte count 01 00 00 00 00 is refused after genesis as before; 01 00 00 00 (4 bytes) is the number 1
+    unless MINIMALDATA is set *)
+Example C06_count_examples :
+  let ag := mkCtx (N.shiftl 1 F_GENESIS) true 0 1 0 true in
+  pop_count ag [x01; x00; x00; x00; x00] = None /\ pop_count ag [x01; x00; x00; x00] = Some 1%Z /\
+  pop_count (mkCtx (N.shiftl 1 F_MINIMALDATA) true 0 1 0 false) [x01; x00; x00; x00] = None.
+Proof. vm_compute. repeat split; reflexivity. Qed.
 
 (** a toy oracle: 2-of-3 with signatures for keys 1 and 3 matches, in the other order it does not *)
 Example C06_matching_example :
